@@ -139,6 +139,32 @@ func runRing(op string) (out string) {
 		return "connect-error:" + strings.ReplaceAll(msg, " ", "_")
 	}
 	defer env.Close()
+	if par["W"] == "1" {
+		// the control connection is lost and re-established, and the node that answers now is of the other kind
+		// (plain / DSE): what the proxy presents was fixed when it started and must not change
+		if o.DSEVersion == "" {
+			env.Cluster.SetDSEVersion("6.8.0")
+		} else {
+			env.Cluster.SetDSEVersion("")
+		}
+		for _, ip := range env.Cluster.NodeIPs() {
+			env.Cluster.Node(ip).DropConns(func(c interface{ Registered() bool }) bool { return c.Registered() })
+		}
+		time.Sleep(10 * time.Millisecond)
+		restored := false
+		for i := 0; i < 600 && !restored; i++ {
+			for _, ip := range env.Cluster.NodeIPs() {
+				for _, c := range env.Cluster.Node(ip).Conns() {
+					restored = restored || c.Registered()
+				}
+			}
+			time.Sleep(5 * time.Millisecond)
+		}
+		if !restored {
+			return "env-error:control-connection-not-restored"
+		}
+		time.Sleep(60 * time.Millisecond) // the topology queries that follow the REGISTER
+	}
 	cl, err := env.Dial(primitive.ProtocolVersion4, "")
 	if err != nil {
 		return "dial-error"
@@ -237,6 +263,8 @@ func genRing(e *emitter, r *rng.R, n int, tier string) {
 			list[k], list[len(list)-1] = list[len(list)-1], list[k]
 		}
 		withTokens := rr.Chance(1, 4)
+		// (peers that name tokens while this proxy names none: the ring is then calculated, for every node)
+		peerTokens := withTokens || rr.Chance(1, 6)
 		// the same address can be written in several ways; what the proxy presents must not depend on the spelling
 		spell := map[string][]string{"::1": {"0:0:0:0:0:0:0:1", "0000::0001"}, "fe80::1": {"FE80::1", "fe80:0:0:0:0:0:0:1"}, "2001:db8::2": {"2001:0db8::0002", "2001:DB8:0:0::2"},
 			"2001:db8::10": {"2001:db8:0::10", "2001:0DB8::0010"}, "fd00::5": {"fd00:0:0:0:0:0:0:5", "FD00::5"}, "127.0.0.1": {"::ffff:127.0.0.1"}, "10.0.0.9": {"::ffff:10.0.0.9", "0:0:0:0:0:ffff:a00:9"}, "8.8.8.8": {"::FFFF:8.8.8.8"}}
@@ -252,7 +280,7 @@ func genRing(e *emitter, r *rng.R, n int, tier string) {
 		var ps []string
 		for j, a := range list {
 			tok := ""
-			if withTokens && !(rr.Chance(1, 12)) {
+			if peerTokens && !(rr.Chance(1, 12)) {
 				tok = fmt.Sprintf("%d+%d", -9000000000000000000+int64(j)*1000, int64(j)*77)
 			}
 			if rr.Chance(1, 25) {
@@ -284,6 +312,16 @@ func genRing(e *emitter, r *rng.R, n int, tier string) {
 		if rr.Chance(1, 15) {
 			tn = rr.Pick([]string{"system.peers_v2", "system.schema_keyspaces", "system.schema_columns"})
 		}
-		ops = append(ops, fmt.Sprintf("A:%s D:%s T:%s X:%d P:%s Q:%s", A, D, T, rr.Intn(2), P, hx("SELECT "+sel+" FROM "+tn)))
+		W := ""
+		if rr.Chance(1, 6) {
+			W = " W:1"
+			if rr.Bool() {
+				sel = rr.Pick([]string{"*", "dse_version", "key, dse_version", "*"})
+				if table == "peers" {
+					sel = rr.Pick([]string{"*", "dse_version, peer", "*"})
+				}
+			}
+		}
+		ops = append(ops, fmt.Sprintf("A:%s D:%s T:%s X:%d P:%s Q:%s%s", A, D, T, rr.Intn(2), P, hx("SELECT "+sel+" FROM "+tn), W))
 	}
 }
